@@ -109,7 +109,7 @@ class C13(Campaign):
                 if g not in prog["events"]:
                     out.append({"op": "send", "inst": "A", "event": g, "garbage": True, "style": "send"})
             if op["op"] == "send" and op["event"] in prog["events"]:
-                styles = ["send", "call", "events", "allowed"]
+                styles = ["send", "call", "events", "allowed", "foreign_bound"]
                 if new.get("bind"):
                     styles.append("bound")
                 if mixin:
